@@ -14,12 +14,12 @@ LEVEL = 'exploration'
 RULE = ('generated models (linear incl. N-d inputs, conv geometries, bias on/off, residual blocks, unsupported layers in between), batch 1-8, '
         'four losses, damping log-uniform [1e-3,10], decay in (0,1], both methods (enum or string), pre-divided eigenvalues on/off, '
         'param dtype {float32,float64,bfloat16}, factor dtype {None,float32,float64,bfloat16}, inverse dtype {float32,float64,bfloat16}, '
-        '1-6 steps with inv_update_steps | factor_update_steps; a sub-workload loads indefinite factors through load_state_dict (eigen PSD clause). '
+        '1-6 steps with inv_update_steps | factor_update_steps; every 8th case runs on 2-4 simulated ranks under every gradient-worker count and checks every rank; a sub-workload loads indefinite factors through load_state_dict (eigen PSD clause). '
         'non-trivial: tolerance bound < 0.05, ||D|| > 0 and damping matters (lambda/(median eig product + lambda) >= 0.05) on some layer; '
         'distinct = hash(model description, configuration)')
 ASSUMPTIONS = ['factors are read from state_dict() after the step; the clip factor is fitted (its formula is C07)',
                'tolerance = 4 eps(grad dtype) + max(64, 32 sqrt(dim)) * max(eps32, eps(inv dtype)) * kappa (calibrated: >= 8x head-room on the unchanged tree)']
-REQUIRED = ['layer_checks', 'nontrivial_layer_checks']
+REQUIRED = ['layer_checks', 'nontrivial_layer_checks', 'world_layer_checks']
 
 
 def run_case(rng, res, idx, replaying=False):
@@ -115,6 +115,52 @@ def run_case(rng, res, idx, replaying=False):
     res.sample(dict(idx=idx, model=s.info['desc'], cfg={k: cfg[k] for k in ('method', 'prediv', 'damping', 'decay', 'F', 'I', 'pdt', 'fdt', 'idt', 'acc', 'hook')}, steps=nsteps))
 
 
+def run_world(rng, res, idx):
+    """The same oracle on every rank of a simulated world (every gradient-worker count): the layer result must solve the
+    system built from that rank's own view of D and of the factors."""
+    from kverif import kharness as kh, scenario, simdist
+    from kverif.props.c07 import solve_all
+
+    W = rng.choice([2, 3, 4])
+    cfg = kh.make_config(rng, callables=False, intervals='divides', dtypes=('float64', 'float32'), inv_dtypes=('float32', 'float64'), kl=('const', 'big'))
+    cfg['k'] = rng.choice(scenario.divisors(W))
+    cfg['colocate'] = True if (cfg['method'] == 'eigen' and cfg['prediv']) else rng.random() < 0.5
+    nsteps = rng.randint(2, 5)
+    spec = dict(model_seed=rng.randrange(10 ** 6), data_seed=rng.randrange(10 ** 6), batch=rng.randint(1, 4), cfg=cfg, history=[('train',)] * nsteps,
+                record=['D', 'layer_grads', 'factors'])
+    case = dict(idx=idx, kind='world', W=W, cfg=cfg, steps=nsteps)
+    run = scenario.run(spec, W, seed=rng.randrange(10 ** 6), policy=simdist.POLICIES[idx % len(simdist.POLICIES)])
+    if run.inconclusive:
+        res.inconclusive.append('simulator watchdog fired')
+        return
+    r_, tb = run.first_exception()
+    if tb and 'ConfigRejected' in tb.strip().splitlines()[-1]:
+        res.skip('constructor rejected')
+        return
+    if run.failed():
+        return res.violation('scenario failed: ' + run.failure_summary(), case)
+    lam = cfg['damping'][1]
+    for st in range(nsteps):
+        for r in range(W):
+            rec = run.results[r]
+            D, R, fac = rec['D'][st], rec['layer_grads'][st], rec['factors'][st]
+            V, kap = solve_all(cfg, D, fac, lam)
+            den = sum(float((V[n] * V[n]).sum()) for n in D)
+            if den == 0:
+                continue
+            nu = sum(float((R[n] * V[n]).sum()) for n in D) / den
+            for n in D:
+                tol = kh.tol_for(cfg, kap[n], max(V[n].shape), with_factor=(cfg['method'] == 'inverse'))
+                err = kh.rel_err(R[n], nu * V[n])
+                res.count('world_layer_checks')
+                res.maxi('max_world_err_over_tol', err / tol)
+                if not err <= tol:
+                    return res.violation(f'rank {r} of {W} (k={cfg["k"]}), step {st}, layer {n}: ||R - nu V||/||nu V|| = {err:.3e} > tol {tol:.3e} '
+                                         f'(method={cfg["method"]}, prediv={cfg["prediv"]}, inverse worker of the layer: {rec["assignment"][n]["inv"]})', case, step=st, layer=n)
+    res.nontrivial.add(stable_hash('world', W, spec['model_seed'], cfg))
+    res.sample(dict(idx=idx, kind='world', W=W, k=cfg['k'], steps=nsteps, cfg={k: cfg[k] for k in ('method', 'prediv', 'F', 'I', 'damping')}))
+
+
 def plan(tier, seed):
     n = tier_value(tier, 1600, 120000)
     shards = tier_value(tier, 8, 14)
@@ -129,9 +175,14 @@ def run_shard(spec, res):
             break
         res.evaluations += 1
         from kverif.kharness import call_case
-        call_case(res, run_case, case_rng(spec['seed'], ID, i), res, i, case=dict(idx=i))
+        if i % 8 == 7:
+            call_case(res, run_world, case_rng(spec['seed'], ID, i, 'w'), res, i, case=dict(idx=i, kind='world'))
+        else:
+            call_case(res, run_case, case_rng(spec['seed'], ID, i), res, i, case=dict(idx=i))
 
 
 def replay(case, res):
     import os
+    if case.get('kind') == 'world':
+        return run_world(case_rng(int(os.environ.get('VERIF_SEED', '0')), ID, case['idx'], 'w'), res, case['idx'])
     run_case(case_rng(int(os.environ.get('VERIF_SEED', '0')), ID, case['idx']), res, case['idx'], True)
